@@ -313,6 +313,9 @@ func genFATHistory(t *rapid.T, o fatGenOpts) histCase {
 		}
 		if !o.noCycles {
 			kinds = append(kinds, "fillcycle", "popcycle")
+			if len(files) >= 2 {
+				kinds = append(kinds, "squeeze")
+			}
 		}
 		if !o.noTwoHands {
 			if hx.Active("KF-FAT-STALEDIR") {
@@ -399,7 +402,13 @@ func genFATHistory(t *rapid.T, o fatGenOpts) histCase {
 				}
 				sort.Strings(sib)
 				if len(sib) > 0 {
-					q = model.Join(dir, rapid.SampledFrom(sib).Draw(t, "renameOnto"))
+					onto := rapid.SampledFrom(sib).Draw(t, "renameOnto")
+					// the destination may be spelled differently from the stored name: FAT names are
+					// case-insensitive, so this still replaces the existing file (and must release its clusters)
+					if rapid.IntRange(0, 2).Draw(t, "renameOntoSpell") == 0 {
+						onto = caseVariant(onto)
+					}
+					q = model.Join(dir, onto)
 				}
 			case 1: // case-only rename
 				base := p[strings.LastIndex(p, "/")+1:]
@@ -434,6 +443,24 @@ func genFATHistory(t *rapid.T, o fatGenOpts) histCase {
 				chunk = min + chunk%cb + 1 // keeps the number of appends per round small; still not cluster-aligned
 			}
 			c.Ops = append(c.Ops, fsOp{K: "fillcycle", P: p, Chunk: chunk, N: rapid.IntRange(2, 4).Draw(t, "rounds"), D: mk.Content{Seed: uint32(counter)}})
+		case "squeeze":
+			// fill the volume, remove one existing file, grow another by as many bytes: must fit
+			vi := rapid.IntRange(0, len(files)-1).Draw(t, "sqzVictim")
+			gi := rapid.IntRange(0, len(files)-2).Draw(t, "sqzGrow")
+			if gi >= vi {
+				gi++
+			}
+			counter++
+			if vn, gn := m.Lookup(files[vi]), m.Lookup(files[gi]); vn != nil && gn != nil {
+				n := len(vn.Data)
+				_ = m.Remove(files[vi])
+				gn.WriteAt(int64(len(gn.Data)), make([]byte, n))
+			}
+			chunk := rapid.SampledFrom([]int{cb, 3*cb + 1, 16 * cb, 64 << 10}).Draw(t, "sqzChunk")
+			if min := int(c.Cfg.Size / 40); chunk < min {
+				chunk = min + chunk%cb + 1
+			}
+			c.Ops = append(c.Ops, fsOp{K: "squeeze", P: files[vi], Q: files[gi], Chunk: chunk, D: mk.Content{Seed: uint32(counter)}})
 		case "popcycle":
 			d := pickDir()
 			counter++
@@ -959,6 +986,8 @@ func (x *fatRun) exec(op fsOp) {
 		x.fillCycle(op)
 	case "popcycle":
 		x.popCycle(op)
+	case "squeeze":
+		x.squeeze(op)
 	case "interleave2":
 		x.interleave2(op)
 	case "chtimes", "attr":
@@ -1108,6 +1137,103 @@ func (x *fatRun) fillCycle(op fsOp) {
 			x.mutAfterRelease = true
 		}
 	}
+}
+
+// squeeze: fill the volume completely with a new file, remove the existing file op.P, then append as many
+// bytes as it held to the existing file op.Q. The append needs at most the clusters the removal released,
+// whichever clusters those are, so it must succeed ("space released by remove can be used again").
+func (x *fatRun) squeeze(op fsOp) {
+	vn, gn := x.m.Lookup(op.P), x.m.Lookup(op.Q)
+	if vn == nil || gn == nil || vn == gn || vn.Dir || gn.Dir || len(vn.Data) == 0 {
+		return
+	}
+	victim, grow := x.canon(op.P), x.canon(op.Q)
+	fill := fmt.Sprintf("SQZ%d.BIN", op.D.Seed)
+	if x.m.Lookup(fill) != nil {
+		return
+	}
+	fnode, _ := x.m.Create(fill)
+	created := false
+	limit := int(x.c.Cfg.Size/int64(op.Chunk)) + 8
+	appendFill := func(data []byte) bool {
+		flag := os.O_RDWR | os.O_APPEND
+		if !created {
+			flag = os.O_RDWR | os.O_CREATE
+		}
+		old := len(fnode.Data)
+		fnode.WriteAt(int64(old), data)
+		if err := x.openWrite(fill, flag, 0, data, false); err != nil || x.r.Failed() {
+			fnode.Data = fnode.Data[:old]
+			x.resync(fill)
+			fnode = x.m.Lookup(fill)
+			return false
+		}
+		created = true
+		return true
+	}
+	for i := 0; i < limit && fnode != nil; i++ {
+		if !appendFill(mk.Content{Seed: op.D.Seed*1000 + uint32(i), Len: op.Chunk}.Bytes()) {
+			break
+		}
+	}
+	for sz := op.Chunk / 2; sz >= 1 && fnode != nil && created && !x.r.Failed(); {
+		if !appendFill(mk.Content{Seed: op.D.Seed*1000 + 900 + uint32(sz%97), Len: sz}.Bytes()) {
+			sz /= 2
+		}
+	}
+	if x.r.Failed() {
+		return
+	}
+	if !created || fnode == nil {
+		// the fill file could not even be created (root directory full): nothing to squeeze against
+		if fnode != nil {
+			_ = x.m.Remove(fill)
+			x.resync(fill)
+		}
+		return
+	}
+	x.sawENOSPC = true
+	x.r.Class("squeeze:full")
+	n := len(vn.Data)
+	err, ok := x.call("Remove", func() error { return x.fs.Remove(fsPath(victim)) })
+	if !ok {
+		return
+	}
+	if err != nil {
+		x.fail("remove-failed", "Remove(%q) on a full volume fails: %v", victim, err)
+		return
+	}
+	_ = x.m.Remove(victim)
+	x.sawRelease = true
+	data := mk.Content{Seed: op.D.Seed*1000 + 999, Len: n}.Bytes()
+	gn = x.m.Lookup(grow)
+	old := len(gn.Data)
+	gn.WriteAt(int64(old), data)
+	if err := x.openWrite(grow, os.O_RDWR|os.O_APPEND, 0, data, true); err != nil {
+		if x.r.Failed() {
+			return
+		}
+		x.fail("space-not-reusable", "on a full volume %q (%d bytes) was removed, then appending %d bytes to %q (%d bytes) fails: %v - space released by Remove is not usable again", victim, n, n, grow, old, err)
+		return
+	}
+	if x.r.Failed() {
+		return
+	}
+	x.noteMut()
+	x.compare("squeeze after the append")
+	x.structural("squeeze after the append")
+	if x.r.Failed() {
+		return
+	}
+	err, ok = x.call("Remove", func() error { return x.fs.Remove(fsPath(fill)) })
+	if !ok {
+		return
+	}
+	if err != nil {
+		x.fail("remove-failed", "Remove(%q) of the fill file fails: %v", fill, err)
+		return
+	}
+	_ = x.m.Remove(fill)
 }
 
 // popCycle: create entries in a directory until refused (or Chunk entries),
